@@ -702,30 +702,36 @@ Definition mon_C17 (c : syscase) : N :=
   | k => k end.
 
 (* ================================================================================== *)
-(* C02: every navigation targets a URI registered for the client, or one that this client pushed
-   (accepted by /par) where unregistered URIs are permitted for PAR / under FAPI *)
-Fixpoint c02_from (cs : syscase) (cfg : config) (cbs : list (id * id)) (pushed : list (id * string))
+(* C02: every navigation targets a URI registered for the client, or the URI of the PUSHED request this very
+   request redeems (accepted by /par for this client where unregistered URIs are permitted for PAR / under
+   FAPI); for a callback: of the request that started the interaction.  A URI that was pushed once is not
+   thereby acceptable in a later plain request. *)
+Fixpoint c02_from (cs : syscase) (cfg : config) (cbs : list (id * (id * string))) (pushed : list (id * (id * string)))
                   (k : nat) (ops : list op) (xs : list obs) : N :=
   match ops, xs with
   | o :: ops', x :: xs' =>
-      let ok_target (cl : id) (u : string) : bool :=
+      let ok_target (cl : id) (extra u : string) : bool :=
         match client_of cs cl with
         | Some c => orb (redirect_allowed c u)
                       (andb (orb (cf_par_unregistered cfg) (is_fapi (cf_profile cfg)))
-                            (existsb (fun pr => andb (ideq (fst pr) cl) (seqb (snd pr) u)) pushed))
+                            (andb (negb (is_empty extra)) (seqb extra u)))
         | None => false
         end in
+      let extra_of (r : areq) : string :=
+        match lookup (p_request_uri (ar_params r)) pushed with
+        | Some (cl, u) => if ideq cl (ar_client r) then u else ""
+        | None => "" end in
       let bad : bool :=
         match o, x with
-        | OpAuthorize r, Out (ONav _ u _) => negb (ok_target (ar_client r) u)
+        | OpAuthorize r, Out (ONav _ u _) => negb (ok_target (ar_client r) (extra_of r) u)
         | OpCallback r, Out (ONav _ u _) =>
-            match lookup (cb_id r) cbs with Some cl => negb (ok_target cl u) | None => true end
+            match lookup (cb_id r) cbs with Some (cl, extra) => negb (ok_target cl extra u) | None => true end
         | _, _ => false
         end in
       if bad then viol 1 k else
       c02_from cs cfg
-        (match o, x with OpAuthorize r, Out (OPage cb) => (cb, ar_client r) :: cbs | _, _ => cbs end)
-        (match o, x with OpPar r, Out (OPar _) => (cr_id (pr_cred r), p_redirect (pr_params r)) :: pushed | _, _ => pushed end)
+        (match o, x with OpAuthorize r, Out (OPage cb) => (cb, (ar_client r, extra_of r)) :: cbs | _, _ => cbs end)
+        (match o, x with OpPar r, Out (OPar u) => (u, (cr_id (pr_cred r), p_redirect (pr_params r))) :: pushed | _, _ => pushed end)
         (S k) ops' xs'
   | _, _ => 0
   end.
